@@ -5,7 +5,7 @@
    the exception CLASS (UnexpectedToken / UnexpectedCharacters) and its .pos are produced by
    Lark and are monitored on the implementation by the correspondence check, not modelled.
    Proofs in Proofs/ParseP.v (axiom-free). *)
-From PMC Require Import Spec.Lemmas Model.Parse Proofs.PrintP Proofs.ParseP.
+From PMC Require Import Spec.Lemmas Model.Parse Spec.Grammar Proofs.PrintP Proofs.ParseP Proofs.GrammarP.
 
 (* every input string either yields a formula or is rejected: no other outcome (in particular
    the parser's fuel always suffices) *)
@@ -20,6 +20,25 @@ Print Assumptions C10_total.
 Theorem C10_member : forall L s f, parse_string L s = Ok f -> member L f = true /\ arity_ok f = true.
 Proof. exact PMC.Proofs.ParseP.C10_member. Qed.
 Print Assumptions C10_member.
+
+(* SOUNDNESS w.r.t. the documented grammar: Spec/Grammar.v transcribes the four grammar texts
+   (PL/CTLS/CTL/LTL parser.py, holes filled with the alphabets' symbols) as plain context-free
+   grammars over terminal strings with free tokenisation (what an Earley parser with a dynamic
+   lexer accepts), producing the AST as the transformers do.  Every string the parser model
+   accepts is derivable there with the same AST: it never accepts what the grammar excludes. *)
+Theorem C10_sound : forall L s f, parse_string L s = Ok f -> in_language L s f.
+Proof. exact PMC.Proofs.GrammarP.C10_sound. Qed.
+Print Assumptions C10_sound.
+
+(* sanity of the transcription: the grammar only derives formulas of its logic *)
+Theorem C10_grammar_member : forall L ts f, derives L ts f -> member L f = true.
+Proof. exact grammar_member. Qed.
+Print Assumptions C10_grammar_member.
+
+(* the inclusion is strict (LALR + contextual lexer accepts less than the pure CFG): "AX p" *)
+Theorem C10_strict : exists s f, in_language CTL s f /\ parse_string CTL s <> Ok f.
+Proof. exact ex_ctl_AXp_strict. Qed.
+Print Assumptions C10_strict.
 
 (* completeness on printed formulas: everything the logic can print is accepted (C09) *)
 Theorem C10_accepts_printed : forall L f, L <> CTL -> good L f = true -> parse_string L (print_std f) = Ok f.
